@@ -61,6 +61,8 @@ type apObs struct {
 	Fds0    int    `json:"fds0"`   // open file descriptors of the child before its first cell
 	Fds     int    `json:"fds"`    // ... after this cell
 	Skipped bool   `json:"skipped"`
+	Reject  bool   `json:"reject"` // the file holds an entry over the provider's size limit: a clean error is expected
+	OverAt  int    `json:"over_at"` // number of entries in front of the oversize entry (-1: none)
 	lay     apLayout
 	dir     string
 	file    string
@@ -69,6 +71,7 @@ type apObs struct {
 	Count     int    `json:"count"`
 	Hist      []int  `json:"hist"`
 	Unknown   int    `json:"unknown"` // acquired items that are no entry of the file
+	Variants  int    `json:"variants"` // entries that did not look the same (fingerprint) every time they were delivered
 	Eofs      int    `json:"eofs"`
 	Cancelled bool   `json:"cancelled"`
 	RunRet    bool   `json:"run_ret"`
@@ -267,8 +270,26 @@ func ammoprovChild(args []string) {
 		obs := apObs{apCase: c, Shape: "viper", Hist: make([]int, len(c.W)), Fs: *fsMode, Fds0: fds0, dir: dir}
 		// file layout variations, rotating with the seed
 		obs.lay = apLayout{NoFinalNL: (c.ID/3+seed)%4 == 0, Big: (c.ID/7+seed)%3 == 0 || len(c.W) >= 40,
-			Rel: *fsMode == "os" && (c.ID/5+seed)%2 == 0}
+			Rel: *fsMode == "os" && (c.ID/5+seed)%2 == 0,
+			Hdr:      (c.ID/2+seed)%3 == 0,
+			SmallBuf: c.Kind == "json" && (c.ID/4+seed)%2 == 0}
+		// an entry longer than 64 KiB with the size option raised: every 4th cell of the kinds that can carry one
+		// (every 2nd for grpc/json, the one kind whose scanner needs the option)
+		if apOversizeKind(c.Kind) && ((c.ID/6+seed)%4 == 0 || (c.Kind == "grpcjson" && (c.ID/6+seed)%2 == 0)) {
+			obs.lay.Oversize = []int{70000, 200000}[(c.ID/2)%2]
+			obs.lay.OverAt = (c.ID / 13) % len(c.W)
+			obs.lay.RaiseOpt = true
+			// control: option NOT raised => the provider must fail cleanly (no hang, sink closed)
+			if c.Kind == "grpcjson" && c.Cut == 0 && (c.ID/24+seed)%2 == 0 {
+				obs.lay.RaiseOpt = false
+				obs.Reject = true
+			}
+		}
 		obs.Layout = obs.lay.String()
+		obs.OverAt = -1
+		if obs.lay.Oversize > 0 {
+			obs.OverAt = obs.lay.OverAt
+		}
 		if (c.ID+seed)%2 == 1 {
 			obs.Shape = "yaml"
 		}
@@ -283,12 +304,12 @@ func ammoprovChild(args []string) {
 			if obs.stuck() {
 				// hang rule: confirm once with a fresh provider
 				second := apObs{apCase: c, Shape: obs.Shape, Via: obs.Via, Hist: make([]int, len(c.W)),
-					Fs: obs.Fs, Layout: obs.Layout, Fds0: obs.Fds0, lay: obs.lay, dir: obs.dir}
+					Fs: obs.Fs, Layout: obs.Layout, Fds0: obs.Fds0, lay: obs.lay, dir: obs.dir, Reject: obs.Reject, OverAt: obs.OverAt}
 				apDirect(fs, &second, *hang)
 				second.Attempts = 2
 				obs = second
 			}
-			if c.Cut == 0 && obs.BuildErr == "" && obs.RunClass != "panic" && !obs.stuck() {
+			if c.Cut == 0 && obs.BuildErr == "" && obs.RunClass != "panic" && !obs.stuck() && !obs.Reject {
 				apEngine(fs, &obs, *hang)
 				if !obs.EngRet || !obs.EngWait {
 					apEngine(fs, &obs, *hang)
@@ -416,6 +437,8 @@ func apDirect(fs afero.Fs, obs *apObs, hang time.Duration) {
 	}()
 
 	hist := make([]atomic.Int64, n)
+	var fpMu sync.Mutex
+	fps, varied := map[int]uint64{}, map[int]bool{}
 	var wg sync.WaitGroup
 	for i := 0; i < c.NC; i++ {
 		wg.Add(1)
@@ -439,8 +462,15 @@ func apDirect(fs afero.Fs, obs *apObs, hang time.Duration) {
 					touch()
 					return
 				}
-				if j := apProject(a, n); j >= 0 {
+				if j, fp := apProject(a, n); j >= 0 {
 					hist[j].Add(1)
+					fpMu.Lock()
+					if first, seen := fps[j]; !seen {
+						fps[j] = fp
+					} else if first != fp {
+						varied[j] = true
+					}
+					fpMu.Unlock()
 				} else {
 					unknown.Add(1)
 				}
@@ -482,6 +512,9 @@ func apDirect(fs afero.Fs, obs *apObs, hang time.Duration) {
 	obs.Count = int(count.Load())
 	obs.Eofs = int(eofs.Load())
 	obs.Unknown = int(unknown.Load())
+	fpMu.Lock()
+	obs.Variants = len(varied)
+	fpMu.Unlock()
 	obs.Cancelled = cancelledAt.Load() != 0
 	for j := range hist {
 		obs.Hist[j] = int(hist[j].Load())
